@@ -184,3 +184,50 @@ Example ex_to_be_bytes : U_to_be_bytes 16 [0x1234; 0xabcd] = [0xab; 0xcd; 0x12; 
 Proof. reflexivity. Qed.
 Example ex_from_be_bytes : U_from_be_bytes 16 2 [0xab; 0xcd; 0x12; 0x34] = [0x1234; 0xabcd].
 Proof. reflexivity. Qed.
+
+(* ---------- the Rust source itself: src/buint/endian.rs and src/bint/endian.rs, translated to Gallina on every run ---------- *)
+(* Generated/EndianGen.v is regenerated from /repo/src by tools/rs2v_endian.py (prebuild hook of gen/c15.py); every function of it
+   equals the hand-written model the theorems above are about: for every digit of 2^bs bytes (w = 8 * 2^bs; Rust: bs = 0..3),
+   every digit count n (signed slices: n >= 1), every byte slice / value / byte array; `fuel` is the explicit iteration budget of
+   the generated loops (NoFuel excluded: it only has to cover the longest loop).  tools/ENDIAN_TRANSLATOR.md. *)
+From Bnum.Model Require Import Imp.
+From Bnum.Generated Require Import EndianGen.
+From Bnum.Proofs Require Import EndianGenTie.
+
+Theorem C15_endian_rs_matches_model : forall w bs (n : nat) fuel, w = 8 * 2 ^ Z.of_nat bs -> (dbytes w <= fuel)%nat ->
+  (* to_be / from_be / to_le / from_le, little-endian target *)
+  (forall x, EndianGen.from_be w (Z.of_nat n) fuel x = Done (U_from_be w x)) /\
+  (forall x, EndianGen.from_le w (Z.of_nat n) fuel x = Done (U_from_le x)) /\
+  (forall x, EndianGen.to_be w (Z.of_nat n) fuel x = Done (U_to_be w x)) /\
+  (forall x, EndianGen.to_le w (Z.of_nat n) fuel x = Done (U_to_le x)) /\
+  (forall x, EndianGen.I_from_be w (Z.of_nat n) fuel x = Done (I_from_be w x)) /\
+  (forall x, EndianGen.I_from_le w (Z.of_nat n) fuel x = Done (I_from_le x)) /\
+  (forall x, EndianGen.I_to_be w (Z.of_nat n) fuel x = Done (I_to_be w x)) /\
+  (forall x, EndianGen.I_to_le w (Z.of_nat n) fuel x = Done (I_to_le x)) /\
+  (* from_be_slice / from_le_slice: any slice no longer than the budget *)
+  (forall slice, (length slice <= fuel)%nat ->
+     EndianGen.from_be_slice w (Z.of_nat n) fuel slice = Done (U_from_be_slice w n slice) /\
+     EndianGen.from_le_slice w (Z.of_nat n) fuel slice = Done (U_from_le_slice w n slice)) /\
+  (forall slice, (0 < n)%nat -> (length slice <= fuel)%nat ->
+     EndianGen.I_from_be_slice w (Z.of_nat n) fuel slice = Done (I_from_be_slice w n slice) /\
+     EndianGen.I_from_le_slice w (Z.of_nat n) fuel slice = Done (I_from_le_slice w n slice)) /\
+  (* nightly: to_*_bytes on a value of n digits, from_*_bytes on an array of n * BYTES bytes *)
+  (forall x, length x = n -> (n <= fuel)%nat ->
+     EndianGen.to_be_bytes w (Z.of_nat n) fuel x = Done (U_to_be_bytes w x) /\
+     EndianGen.to_le_bytes w (Z.of_nat n) fuel x = Done (U_to_le_bytes w x) /\
+     EndianGen.to_ne_bytes w (Z.of_nat n) fuel x = Done (U_to_ne_bytes w x) /\
+     EndianGen.I_to_be_bytes w (Z.of_nat n) fuel x = Done (I_to_be_bytes w x) /\
+     EndianGen.I_to_le_bytes w (Z.of_nat n) fuel x = Done (I_to_le_bytes w x) /\
+     EndianGen.I_to_ne_bytes w (Z.of_nat n) fuel x = Done (I_to_ne_bytes w x)) /\
+  (forall b, length b = (n * dbytes w)%nat -> (n <= fuel)%nat ->
+     EndianGen.from_be_bytes w (Z.of_nat n) fuel b = Done (U_from_be_bytes w n b) /\
+     EndianGen.from_le_bytes w (Z.of_nat n) fuel b = Done (U_from_le_bytes w n b) /\
+     EndianGen.from_ne_bytes w (Z.of_nat n) fuel b = Done (U_from_ne_bytes w n b) /\
+     EndianGen.I_from_be_bytes w (Z.of_nat n) fuel b = Done (I_from_be_bytes w n b) /\
+     EndianGen.I_from_le_bytes w (Z.of_nat n) fuel b = Done (I_from_le_bytes w n b) /\
+     EndianGen.I_from_ne_bytes w (Z.of_nat n) fuel b = Done (I_from_ne_bytes w n b)).
+Proof. exact endian_gen_match_model. Qed.
+Print Assumptions C15_endian_rs_matches_model.
+
+Example byte_width_ex : (64 = 8 * 2 ^ Z.of_nat 3) /\ (dbytes 64 <= 8)%nat.
+Proof. split; [reflexivity | cbv; lia]. Qed.
